@@ -19,7 +19,8 @@ from sx import Sym, Str
 
 PROP = "C09"
 PROP_FILE = "C09_SchemaSyn"
-THEOREMS = ["c09_reference_form_insensitive_partial", "c09_resolve_order_independent_partial", "c09_validation_same"]
+THEOREMS = ["c09_reference_form_insensitive_partial", "c09_resolve_order_independent_partial", "c09_validation_same",
+            "c09_cedar_roundtrip_refuted"]
 
 MANIFEST = {
     "text": "Schema fragments with the three reference forms (Entity / CommonRef / EntityOrCommon), `resolve` transcribed from "
@@ -421,11 +422,14 @@ def run(rep, tier, seed):
     mcmds = [[Sym("schema_resolve"), SS.frag_sx(c.frag)] for c in cases]
     mres = fw.run_model(driver, mcmds)
 
+    mcmds2 = [[Sym("schema_cedar_roundtrip"), SS.frag_sx(c.frag)] for c in cases]
+    mres2 = fw.run_model(driver, mcmds2)
+
     # ---- oracle + correspondence
     stats = {"accepted": 0, "rejected": 0, "cedar_expressible": 0, "translate_J2C_ok": 0, "translate_J2C_fail": {},
              "reject_classes": {}, "nearmiss_checked": 0, "verdict_pairs": 0, "policy_pass": 0, "policy_fail": 0,
              "request_ok": 0, "request_rejected": 0, "entities_ok": 0, "entities_rejected": 0, "labels": {},
-             "model_agree": 0, "second_translation_refused": {}}
+             "model_agree": 0, "roundtrip_model_agree": 0, "second_translation_refused": {}}
     distinct = set()
     samples = []
     for ci, c in enumerate(cases):
@@ -521,8 +525,9 @@ def run(rep, tier, seed):
                             stats["request_ok" if q["request_new"] == "ok" else "request_rejected"] += 1
                         for e in v["a"]["entities"]:
                             stats["entities_ok" if "ok" in e else "entities_rejected"] += 1
-        for b in bad:
-            rep.violation(dict({"property": PROP, "case": c.describe()}, **b), key=key)
+        if bad:
+            # one replay per failing input, listing every check it fails
+            rep.violation({"property": PROP, "kind": bad[0]["kind"], "failed_checks": bad, "case": c.describe()}, key=key)
         # (3) correspondence with the model
         m = canon_model(mres[ci])
         cbad = None
@@ -555,6 +560,35 @@ def run(rep, tier, seed):
                            "case": c.describe(), "model": repr(mres[ci])[:1500]}, no_failing_input=True, key=key)
         elif not cbad:
             stats["model_agree"] += 1
+        # (4) correspondence of the modelled trip through the Cedar syntax (SchemaSyn.cedar_roundtrip = fmt.rs printer
+        #     followed by parser + to_json_schema.rs) with translate -> load on the implementation
+        if oj[0] == "ok" and not bad and not cbad:
+            m2 = mres2[ci]
+            tr = c.res["J2C"]
+            rbad = None
+            if isinstance(m2, list) and m2 and str(m2[0]) == "refused":
+                if "translate_error" not in tr:
+                    rbad = "model: printer refuses; implementation translated"
+                else:
+                    stats["roundtrip_model_agree"] += 1
+            else:
+                m2c = canon_model(m2)
+                if "ok" not in tr:
+                    rbad = "implementation: printer refuses (%s); model translated" % tr.get("translate_error")
+                else:
+                    o1 = outcome(c.res["load(J2C)"])
+                    if m2c[0] != o1[0]:
+                        rbad = "translated schema: implementation %s, model %s" % (o1[0], m2c[:2] if m2c[0] != "ok" else "ok")
+                    elif m2c[0] == "ok":
+                        d = diff(o1[1], m2c[1])
+                        if d:
+                            rbad = "translated schemas differ: " + d
+                    if not rbad:
+                        stats["roundtrip_model_agree"] += 1
+            if rbad:
+                rep.violation({"property": PROP, "kind": "correspondence: model SchemaSyn.cedar_roundtrip + resolve vs to_cedarschema + "
+                               "from_cedarschema_str: " + rbad, "lost_transfer": "c09_cedar_roundtrip_refuted (the model of the printer/parser pair)",
+                               "case": c.describe(), "model": repr(m2)[:1500]}, no_failing_input=True)
         if oj[0] == "ok" and len(oj[1]["etypes"]) >= 2 and oj[1]["actions"]:
             distinct.add(fw.case_hash(c.jtext))
         if len(samples) < 2 and c.label.startswith("random-cedar") and oj[0] == "ok":
